@@ -36,7 +36,7 @@ def P(types, footprint, quick=1000, thorough=20000, streams=("structured", "malf
                 assumptions=AS_COMMON + list(extra_as), undischarged=list(undischarged))
 
 
-CONV_FP = ["*.apply", "*.merge"] + READS + API_GEN
+CONV_FP = ["*.apply", "*.merge"] + READS + API_GEN + ["vclock.cmp", "vclock.ops", "vclock.from_dot", "vclock.from_iter"]   # the clock comparisons every apply / merge relies on
 MAP_AS = ["Map (any nesting) violates this property at VALUE level on the unchanged tree: known findings T1, T2, T3 (KNOWN_FINDINGS.json); for Map values the check relies on the correspondence of the faithful model, the refutation witnesses and the monitors' known-finding classes; at KEY level (key set, contexts, pending removes) the property is proved (proofs/MapKeys.v)"]
 
 PROPS = {
